@@ -1,9 +1,9 @@
 
 def _sm_variants():
     v = []
-    def add(name, smv, i, o, oob=0, bond=0, mitm=0, thorough_only=False):
+    def add(name, smv, i, o, oob=0, bond=0, mitm=0, thorough_only=False, tdepth=1000):
         v.append(dict(name=name, thorough_only=thorough_only,
-                      defs=["SMV=%d" % smv, "IO_IN=%d" % i, "IO_OUT=%d" % o, "OOB=%d" % oob, "BOND=%d" % bond, "MITM=%d" % mitm]))
+                      defs=["SMV=%d" % smv, "IO_IN=%d" % i, "IO_OUT=%d" % o, "OOB=%d" % oob, "BOND=%d" % bond, "MITM=%d" % mitm, "TDEPTH=%d" % tdepth]))
     # legacy_security_manager: {no input, yes/no, keyboard} x {no output, numeric output} (+OOB, +bonding, +MITM flag)
     add("legacy-noin-noout", 0, 0, 0, thorough_only=True)
     add("legacy-noin-display", 0, 0, 1, thorough_only=True)
@@ -26,7 +26,7 @@ def _sm_variants():
     add("combined-yesno-display", 2, 1, 1)
     add("combined-noin-display", 2, 0, 1)
     add("combined-noin-noout-oob-mitm", 2, 0, 0, oob=1, mitm=1)
-    add("combined-yesno-display-bonding", 2, 1, 1, bond=1)
+    add("combined-yesno-display-bonding", 2, 1, 1, bond=1, tdepth=12)   # largest space: depth bound instead of fixpoint
     add("combined-yesno-noout", 2, 1, 0, thorough_only=True)
     # no_security_manager
     add("nosm", 3, 0, 0)
@@ -39,7 +39,7 @@ _SM_RULE = ("state = byte image of security manager object + connection data + I
             "(l2cap_input with one PDU variant, l2cap_output poll, yes_no_response, link-layer encryption switch as link_layer.hpp does it, "
             "initial configuration choice); classes = distinct (PDU kind, variant class, reference phase, outcome/reason) and completion / key / status kinds observed")
 _SM_BOUND = ("per security manager variant x IO configuration (10 units quick, 22 thorough): quick = all event sequences up to depth 8 (from the fresh state and from the scripted start states) de-duplicated on the state image; "
-             "thorough = full reachable state space (fixpoint). Alphabet: every SMP opcode 0x00..0x0f + empty PDU; request/confirm/random/public key/DHKey check each as "
+             "thorough = full reachable state space (fixpoint); combined-yesno-display-bonding: depth 12. Alphabet: every SMP opcode 0x00..0x0f + empty PDU; request/confirm/random/public key/DHKey check each as "
              "{correct value, wrong values (garbage; first / middle / last / all-but-last octet wrong for Mconfirm and Ea; confirm values for passkey mod 65536 and passkey with changed upper half), length-1, length+1, invalid parameter (io 5, oob 2, key size 6/17, key distribution 0xf0)}; user yes/no at any time; output poll; "
              "encryption on (pairing key / bond key) and off; find_key probes for 24 EDIV/Rand pairs (zero, single bits in every 16 bit lane incl. bit 32 and 63, the bonded pairs and their one-bit neighbours) after every step; bond DB (earlier entry + bond made on this connection) preloaded {empty, this peer, other peer, LESC bond under ediv=rand=0 with a recognisable key}; scripted prefixes as additional start states (aborted / declined numeric comparison whose Ea was already verified, completed legacy just works / passkey pairing, completed LESC just works / numeric comparison pairing)")
 _SM_ASSUME = [
@@ -56,7 +56,7 @@ reg("C35",
     technique=_SM_WORLD + 'oracle: local_device_pairing_status() (and link_state::pairing_status() after encryption start) equals what the reference saw performed: legacy with TK=0 or LESC exchange without user confirmation -> unauthenticated, legacy passkey/OOB TK or numeric comparison confirmed by the user -> authenticated, otherwise no key',
     rule=_SM_RULE,
     bound=_SM_BOUND,
-    units=[dict(src="harness/C32_sm.cpp", defs=["ORACLE=35", "QDEPTH=8", "TDEPTH=1000"],
+    units=[dict(src="harness/C32_sm.cpp", defs=["ORACLE=35", "QDEPTH=8"],
                 extra_src=["@REPO@/bluetoe/utility/address.cpp"], variants=_sm_variants())],
     quick_deadline=40, thorough_deadline=400,
     assumptions=_SM_ASSUME + ['authenticated_key and authenticated_key_with_secure_connection both count as authenticated', 'the status of a link encrypted with a key from the bond DB is not judged (statement silent)', "the LESC exchange the implementation runs is always Just-Works/numeric-comparison shaped (f4 with z=0, f6 with r=0); the only authentication the reference can see is the user's yes"],
